@@ -255,3 +255,54 @@ func VerifC13WaitPos() {
 		rt.Reach("c13.waitpos.err")
 	}
 }
+
+// VerifC13HaltAfterWriter: a halt request arrives while a local write
+// transaction is in flight; the transaction commits, then the halt is granted.
+// The lock must name the position of the halted primary (after that commit).
+func VerifC13HaltAfterWriter() {
+	ctx := context.Background()
+	rt.TimeoutPolls = 3
+	w := verifNewStore(true)
+	w.verifOpenDB(verifImage("img0", 1, false), 41)
+	db := w.db
+	pos0 := db.Pos()
+	id := rt.I64("lock.id")
+	rt.Assume(id != 0)
+	// local connection: SHARED + RESERVED, journal written, page written, not yet committed
+	rt.Check(db.TryRLocks(ctx, 1, []LockType{LockTypeShared}), "harness: SHARED")
+	ok, _ := db.TryLocks(ctx, 1, []LockType{LockTypeReserved})
+	rt.Check(ok, "harness: RESERVED")
+	jf, err := db.CreateJournal()
+	rt.Check(err == nil, "harness: journal")
+	rt.Check(db.WriteJournalAt(ctx, jf, verifJournalHeader(0, 1, 1), 0, 1) == nil, "harness: journal header")
+	dbf, _ := db.OpenDatabase(ctx)
+	p := rt.Bytes("new", verifP)
+	verifHeaderPage(p, 1, false)
+	rt.Check(db.WriteDatabaseAt(ctx, dbf, p, 0, 1) == nil, "harness: page write")
+	committed := false
+	rt.OnTick = func() {
+		if committed || !rt.Bool("writer.commits.now") {
+			return
+		}
+		committed = true
+		rt.Check(db.Pos() == pos0, "nothing is published before the commit")
+		rt.Check(db.RemoveJournal(ctx) == nil, "the in-flight local transaction commits")
+		rt.Check(db.Pos().TXID == pos0.TXID+1, "harness: local commit advanced the position")
+		db.GuardSet(1).Unlock()
+	}
+	hl, err := db.AcquireHaltLock(ctx, id)
+	rt.OnTick = nil
+	if !committed {
+		rt.Check(err != nil && hl == nil, "the halt is not granted while a local write transaction is in flight")
+		rt.Reach("c13.halt.blocked")
+		return
+	}
+	rt.Check(err == nil && hl != nil, "halt granted once the local transaction is done")
+	rt.Check(hl.Pos == db.Pos(), "the halt lock names exactly the halted primary's position (the replica starts writing from there)")
+	ok, _ = db.TryLocks(ctx, 1, []LockType{LockTypeReserved})
+	rt.Check(!ok, "no local write transaction can start while the halt is held")
+	rt.Check(db.Pos() == hl.Pos, "position unchanged while halted")
+	db.ReleaseHaltLock(ctx, id)
+	rt.Check(verifAllUnlocked(db), "release frees everything")
+	rt.Reach("c13.halt.after.writer")
+}
